@@ -253,10 +253,15 @@ IllOps == {Calc("k", Ref("z")), Calc("a", Fn("neg", <<B>>)), Proj({"a", "z"}),
            SelRaw(Cmp("eq", Ref("z"), Lit(0))), Sort(<<Term(Ref("z"), TRUE)>>), Slice(3, 1), Slice(-1, 2)}
 SomeOpts == {Opts("none", TRUE, FALSE, FALSE), Opts("sql", TRUE, FALSE, TRUE), Opts("it2", FALSE, TRUE, FALSE),
              Opts("sql", TRUE, TRUE, FALSE), Opts("it1", TRUE, FALSE, FALSE)}
+\* operations restricted to one kind of engine, requested towards the other kind
+OnlyIterNeg == [x |-> "fn", f |-> "neg", args |-> <<A>>, only |-> "iter"]
+OnlySqlNeg == [x |-> "fn", f |-> "neg", args |-> <<A>>, only |-> "sql"]
+RestrictedOps == {Calc("k", OnlyIterNeg), Calc("k", OnlySqlNeg), Sort(<<Term(OnlyIterNeg, TRUE)>>),
+                  SelRaw([p |-> "cmp", f |-> "lt", l |-> A, r |-> Lit(1), only |-> "iter"])}
 Rejects(r) ==
     IF final THEN {}
     ELSE {[call |-> c, err |-> CallResult(c, r).err] :
-            c \in {x \in {[f |-> "un", op |-> op, opts |-> o] : op \in IllOps, o \in SomeOpts}
+            c \in {x \in {[f |-> "un", op |-> op, opts |-> o] : op \in IllOps \cup RestrictedOps, o \in SomeOpts}
                             \cup FinalCalls(r)
                             \cup {[f |-> "join", p |-> Cmp("eq", Ref("z"), A), backtrack |-> TRUE, transfer |-> TRUE]}
                         : IsErr(CallResult(x, r))}}
